@@ -101,8 +101,9 @@ def run_consume(sc):
 
 # ------------------------------------------------------------------ C10
 def timed_scenarios(seed, tier):
+    yield {'kind': 'timed', 'interference': True, 'timeout': 30}
     for kind in ('fifo', 'lifo'):
-        for deferred in (True, False, None):
+        for deferred in (False, True, None):
             for times in (1, 2, 4):
                 yield {'kind': 'timed', 'queue': kind, 'deferred': deferred, 'times': times, 'period': 0.06,
                        'timeout': 30}
@@ -112,6 +113,21 @@ def run_timed(sc):
     from miros.event import Event
     log = []
     ao, fn = make_ao('c10', log)
+    if sc.get('interference'):
+        # a live periodic source, a finished one with the same signal, then one more timed post of another signal
+        try:
+            ao.post_fifo(Event(signal='C10_BEAT'), period=0.05, times=8, deferred=True)
+            ao.post_fifo(Event(signal='C10_BEAT'), period=0.01, times=1, deferred=False)
+            time.sleep(0.08)
+            ao.post_lifo(Event(signal='C10_OTHER'), period=0.5, times=1, deferred=True)
+            time.sleep(0.65)
+            n = [e.signal_name for e in ao.queue.deque].count('C10_BEAT')
+            if n != 9:
+                return False, 'a times=8 source plus a one-shot posted %d events in all, expected 9: a later timed post ' \
+                              'disturbed a running source' % n, 'runner'
+            return True, ''
+        finally:
+            stop_all([ao])
     try:
         p, n = sc['period'], sc['times']
         ao.queue.deque.append(Event(signal='C10_PENDING'))        # something pending, to see which end is used
